@@ -4,13 +4,16 @@ import AidlVerif.Props.ParseTotal
 import AidlVerif.Props.ParseSound
 
 /-!
-# C01 / C03, parse stage — for EVERY text: only `fuelOut` or `lexical` stops remain, and a result
+# C01 / C03, parse stage — for EVERY text: only the `fuelOut` stop remains, and a result
 # without a tree carries an Error
 
-`addContent_stops2` strengthens `ParseTotal.addContent_stops`: the stops of kind `shape`, `table`
-and `acceptShape` are excluded as well, by type checking the regenerated action table against the
-Rust signatures (`actions_typed`, `tables_typed`: kernel evaluation) and the typing lemma of each
-hand-written action. `never_silent`: whenever the model's `add_content` returns a result without a
+`addContent_stops2` strengthens `ParseTotal.addContent_stops`: the stops of kind `shape`, `table`,
+`lexical` and `acceptShape` are excluded as well, by type checking the regenerated action table
+against the Rust signatures (`actions_typed`, `tables_typed`: kernel evaluation) and the typing lemma
+of each hand-written action. `lexical` is the `unreachable!()` of `Direction`: the type `dtok` (a
+token whose text is `in`, `out` or `inout`) is given to the DIRECTION terminal — justified by the
+language of its lexer entry (`LexerLang.next_token_lang`, `dirEntryOk`) — and followed by the
+translator through `DIRECTION?` into `Direction`'s action; the checker verifies that flow. `never_silent`: whenever the model's `add_content` returns a result without a
 tree, that result holds an Error diagnostic.
 -/
 
@@ -19,10 +22,8 @@ open Aidl Aidl.Lr Aidl.Actions Aidl.Lexer
 open Aidl.Props.LrSafe Aidl.Props.LrTyped Aidl.Props.Typed Aidl.Props.ParseTotal Aidl.Props.LrInv
 
 def Allowed2 : Stop → Prop
-  | .driver _ => False
-  | .action p => p.kind = .lexical
   | .fuelOut => True
-  | .acceptShape => False
+  | _ => False
 
 theorem hasTy_optNS_aidl {E : Prop} {v : Val} (h : HasTy E (.optNS .aidl) v) :
     (v = .none_ ∧ E) ∨ ∃ a, v = .some_ (.aidl a) := by
@@ -56,7 +57,7 @@ theorem finishE_typed (env : Env) (id : String) (s : St) (o : Outcome) (ho : End
       rintro ⟨_, hk⟩ _
       exact ⟨d, List.mem_append_right _ (List.mem_singleton.mpr rfl), hk⟩
 
-theorem kind_cases (k : PanicKind) (h1 : k ≠ .bounds) (h2 : k ≠ .shape) (h3 : k ≠ .table) : k = .lexical := by
+theorem kind_cases (k : PanicKind) (h1 : k ≠ .bounds) (h2 : k ≠ .shape) (h3 : k ≠ .table) (h4 : k ≠ .lexical) : False := by
   cases k <;> simp_all
 
 /-- generic over the tables: both certificates in, both conclusions out -/
@@ -80,14 +81,14 @@ theorem addContent_typed_gen (T : Tables) (C : Cert) (TT : TyTables) (hC : C.ok 
     have h4' := h4 st rfl
     cases st with
     | driver m => exact h4'
-    | action p => exact kind_cases p.kind h4' (h3.2 p rfl).1 (h3.2 p rfl).2
+    | action p => exact kind_cases p.kind h4' (h3.2 p rfl).1 (h3.2 p rfl).2.1 (h3.2 p rfl).2.2
     | fuelOut => trivial
     | acceptShape => exact h3.1 rfl
 
 theorem tyFacts_run : TyFacts Driver.Parse.tables tt := tyFacts Driver.Parse.tables tt actions_typed tables_typed rfl
 
 /-- **For every text** (tables and certificates of this run): `add_content` returns, or stops with
-    `fuelOut` or the `unreachable!()` of `Direction` — nothing else. -/
+    `fuelOut` — nothing else (and `ParseTerm.addContent_total` excludes `fuelOut`). -/
 theorem addContent_stops2 (env : Env) (id text : String) (hE : EnvOk env text.toList) (st : Stop)
     (h : addContentE Driver.Parse.tables env id text = .error st) : Allowed2 st := by
   have := addContent_typed_gen Driver.Parse.tables cert tt cert_ok tyFacts_run env id text hE
